@@ -92,9 +92,21 @@ Record world := mkWorld {
                                            BuiltinImplementationSpecifications, no __provides__ is installed *)
   w_meta : list (nat * gname);          (* class c -> the global name of its metaclass when that is not `type`
                                            (e.g. a metaclass that makes the class object falsy) *)
-  w_oldstyle : list (nat * list nat)    (* class c -> the interfaces of an old-style `__implemented__ = I` /
+  w_oldstyle : list (nat * list nat);   (* class c -> the interfaces of an old-style `__implemented__ = I` /
                                            `= (I, J)` in its body *)
+  w_root : option nat                   (* the index of zope.interface.Interface itself among w_ifaces, when
+                                           the case names it in declarations (every interface without other
+                                           bases then lists it as its base) *)
 }.
+
+(* Interface itself: every specification is or extends it *)
+Definition is_root (w : world) (i : nat) : bool :=
+  match w_root w with Some r => Nat.eqb i r | None => false end.
+
+(* Arguments of directlyProvides / Provides / ClassProvides are numbers: a < number of interfaces is
+   interface a; a = number of interfaces + c is implementedBy(class c), a class specification
+   passed as a declaration argument. *)
+Definition nifaces (w : world) : nat := List.length (w_ifaces w).
 
 Definition is_builtin (w : world) (c : nat) : bool := mem_nat c (w_builtin w).
 
@@ -212,9 +224,14 @@ Definition set_impl (st : state) (c : nat) (r : impl_rec) : state :=
   mkState ((c, r) :: st_impl st) (st_cprov_of st) (st_cprovs st) (st_provs st) (st_cache st) (st_insts st).
 
 (* a new ClassProvides object (ClassProvides.__init__ after its implementedBy(cls) call):
-   bases = _add_interfaces_to_cls(interfaces, type) = interfaces + (implementedBy(type),) *)
-Definition alloc_cprov (st : state) (c : nat) (is : list nat) : state :=
-  mkState (st_impl st) (st_cprov_of st) (st_cprovs st ++ [mkCProv c is (map RI is ++ [RType])])
+   bases = _add_interfaces_to_cls(interfaces, type) = interfaces (without Interface itself, which
+   implementedBy(type) is-or-extends) + (implementedBy(type),) *)
+Definition cprov_bases (ni : nat) (root : option nat) (is : list nat) : list sref :=
+  map (fun a => if Nat.ltb a ni then RI a else RC (a - ni))
+      (filter (fun a => match root with Some r => negb (Nat.eqb a r) | None => true end) is) ++ [RType].
+Definition alloc_cprov (w : world) (st : state) (c : nat) (is : list nat) : state :=
+  mkState (st_impl st) (st_cprov_of st)
+          (st_cprovs st ++ [mkCProv c is (cprov_bases (List.length (w_ifaces w)) (w_root w) is)])
           (st_provs st) (st_cache st) (st_insts st).
 
 Definition install_cprov (st : state) (c q : nat) : state :=
@@ -247,7 +264,7 @@ Fixpoint implementedBy (fuel : nat) (w : world) (st : state) (c : nat) : state :
           if is_builtin w c then st2
           else match assoc_nat c (st_cprov_of st2) with
                | Some _ => st2
-               | None => install_cprov (alloc_cprov st2 c []) c (List.length (st_cprovs st2))
+               | None => install_cprov (alloc_cprov w st2 c []) c (List.length (st_cprovs st2))
                end
       end
   end.
@@ -305,11 +322,6 @@ Fixpoint sref_implied (fuel : nat) (w : world) (st : state) (r : sref) : list na
       end
   end.
 
-Definition spec_isOrExtends (fuel : nat) (w : world) (st : state) (c i : nat) : bool :=
-  mem_nat i (sref_implied fuel w st (RC c)).
-
-(* ------------------------------------------------------------------ class declarations *)
-
 (* does the specification of class d depend on that of class c (through the implementedBy(base)
    entries of __bases__, which is how Specification.subscribe links them)? *)
 Fixpoint reaches (fuel : nat) (w : world) (st : state) (d c : nat) : bool :=
@@ -321,19 +333,38 @@ Fixpoint reaches (fuel : nat) (w : world) (st : state) (d c : nat) : bool :=
                  (im_bases (get_impl w st d))
   end.
 
+Definition arg_sref (w : world) (a : nat) : sref :=
+  if Nat.ltb a (nifaces w) then RI a else RC (a - nifaces w).
+
+(* implementedBy(c).isOrExtends(argument a) *)
+Definition spec_isOrExtends (fuel : nat) (w : world) (st : state) (c a : nat) : bool :=
+  if Nat.ltb a (nifaces w)
+  then is_root w a || mem_nat a (sref_implied fuel w st (RC c))
+  else reaches fuel w st c (a - nifaces w).
+
+(* ------------------------------------------------------------------ class declarations *)
+
 (* Assigning spec.__bases__ of class c calls changed(), which reaches every dependent.
    Provides.changed (declarations.py, "stop sharing an instance declaration once its class's
    declarations change"): a Provides whose class depends on c and that is the cached value for its
    arguments removes itself from InstanceDeclarations. *)
+(* a Provides(cls, *args) subscribes to implementedBy(cls) and to every argument it keeps as a base;
+   it hears of a change of class c when cls, or a class specification among its arguments, depends on c *)
+Definition prov_depends (fuel : nat) (w : world) (st : state) (k : ckey) (c : nat) : bool :=
+  reaches fuel w st (fst k) c
+  || existsb (fun a => negb (Nat.ltb a (nifaces w)) && reaches fuel w st (a - nifaces w) c) (snd k).
+
 Definition notify (fuel : nat) (w : world) (st : state) (c : nat) : state :=
   mkState (st_impl st) (st_cprov_of st) (st_cprovs st) (st_provs st)
-          (filter (fun kp : ckey * nat => negb (reaches fuel w st (fst (fst kp)) c)) (st_cache st))
+          (filter (fun kp : ckey * nat => negb (prov_depends fuel w st (fst kp) c)) (st_cache st))
           (st_insts st).
 
 (* _classImplements_ordered(spec of c, before, after) *)
 Definition ordered (fuel : nat) (w : world) (st : state) (c : nat) (before after : list nat) : state :=
   let r := get_impl w st c in
-  let keep x := negb (spec_isOrExtends fuel w st c x) in
+  (* not spec.isOrExtends(x) or (x is Interface and not spec.declared) *)
+  let keep x := negb (spec_isOrExtends fuel w st c x)
+                || (is_root w x && match im_declared r with [] => true | _ => false end) in
   let nd := dedup (filter keep before ++ im_declared r ++ filter keep after) in
   let inherited := match im_inherit r with Some k => map RC (cbases w k) | None => [] end in
   notify fuel w (set_impl st c (mkImpl (im_inherit r) (im_cls r) nd (map RI nd ++ inherited))) c.
@@ -357,7 +388,7 @@ Definition class_implements_first (fuel : nat) (w : world) (st : state) (c i : n
 (* directlyProvides(cls, is...) and @provider(is...): cls.__provides__ = ClassProvides(cls, type, is...) *)
 Definition class_provides (fuel : nat) (w : world) (st : state) (c : nat) (is : list nat) : state :=
   let st := implementedBy fuel w st c in
-  install_cprov (alloc_cprov st c is) c (List.length (st_cprovs st)).
+  install_cprov (alloc_cprov w st c is) c (List.length (st_cprovs st)).
 
 (* directlyProvidedBy(cls) as the flat list _normalizeargs makes of it: Declaration(provides.__bases__[:-1])
    of the class's OWN ClassProvides (an inherited descriptor raises AttributeError: empty) *)
@@ -388,7 +419,7 @@ Definition class_no_longer_provides (fuel : nat) (w : world) (st : state) (c i :
 
 (* Declaration._add_interfaces_to_cls(interfaces, cls) *)
 Definition build_bases (fuel : nat) (w : world) (st : state) (c : nat) (is : list nat) : list sref :=
-  map RI (filter (fun i => negb (spec_isOrExtends fuel w st c i)) is) ++ [RC c].
+  map (arg_sref w) (filter (fun i => negb (spec_isOrExtends fuel w st c i)) is) ++ [RC c].
 
 (* the Provides factory: weak-value cache keyed by the argument tuple *)
 Definition provides_factory (fuel : nat) (w : world) (st : state) (c : nat) (is : list nat) : state * nat :=
@@ -504,13 +535,19 @@ Definition reduce_impl (w : world) (r : impl_rec) : reduced :=
 Definition reduce_impl_prefix (w : world) (r : impl_rec) : reduced :=
   Call FImplementedBy [class_arg w (im_inherit r)].
 
+(* an argument of Provides / ClassProvides: an interface pickles by name; a class specification by its
+   own __reduce__, which names its class whatever was declared (C13_implements_reduce_names_own_class) *)
+Definition arg_ref (w : world) (a : nat) : reduced :=
+  if Nat.ltb a (nifaces w) then ByName (iname w a)
+  else Call FImplementedBy [ByName (cname w (a - nifaces w))].
+
 Definition reduce_prov (w : world) (pr : prov_rec) : reduced :=
-  Call FProvides (ByName (cname w (pv_cls pr)) :: map (fun i => ByName (iname w i)) (pv_ifaces pr)).
+  Call FProvides (ByName (cname w (pv_cls pr)) :: map (arg_ref w) (pv_ifaces pr)).
 
 Definition reduce_cprov (w : world) (q : cprov_rec) : reduced :=
   Call FClassProvides (ByName (cname w (cp_cls q))
                        :: match assoc_nat (cp_cls q) (w_meta w) with Some g => ByName g | None => ByName g_type end
-                       :: map (fun i => ByName (iname w i)) (cp_ifaces q)).
+                       :: map (arg_ref w) (cp_ifaces q)).
 
 (* object.__reduce_ex__(2) of a plain instance: copyreg.__newobj__(cls) + state (__dict__), whose
    '__provides__' entry is the nested reduction of the declaration *)
@@ -533,7 +570,7 @@ Definition opt_is_none {A} (x : option A) : bool := match x with None => true | 
 
 (* how a class / an interface / the metaclass `type` sits in an argument tuple *)
 Definition class_ref (w : world) (c : nat) : reduced := ByName (cname w c).
-Definition iface_refs (w : world) (is : list nat) : list reduced := map (fun i => ByName (iname w i)) is.
+Definition iface_refs (w : world) (is : list nat) : list reduced := map (arg_ref w) is.
 Definition type_ref : reduced := ByName g_type.
 (* the `metacls` argument of ClassProvides: type(cls) *)
 Definition meta_ref (w : world) (c : nat) : reduced :=
@@ -561,7 +598,8 @@ Fixpoint all_some {A} (l : list (option A)) : option (list A) :=
   end.
 
 Definition is_metaclass (x : obj) : bool := match x with OType | OMeta _ => true | _ => false end.
-Definition as_iface (x : obj) : option nat := match x with OIface i => Some i | _ => None end.
+Definition as_arg (w : world) (x : obj) : option nat :=
+  match x with OIface i => Some i | OImpl c => Some (nifaces w + c) | _ => None end.
 Definition as_int (x : obj) : option Z := match x with OInt z => Some z | _ => None end.
 
 (* REDUCE / NEWOBJ+BUILD: call the named constructor in the current process *)
@@ -575,14 +613,14 @@ Definition apply_fn (fuel : nat) (w : world) (st : state) (f : global_fn) (vs : 
       (* implementedBy(None): no __dict__, no __implemented__, not a builtin -> _empty *)
       | FImplementedBy, [ONone] => (st, Some OEmpty)
       | FProvides, OClass c :: rest =>
-          match all_some (map as_iface rest) with
+          match all_some (map (as_arg w) rest) with
           | Some is => let '(st', p) := provides_factory fuel w st c is in (st', Some (OProv p))
           | None => (st, None)
           end
       | FClassProvides, OClass c :: m :: rest =>
-          match is_metaclass m, all_some (map as_iface rest) with
+          match is_metaclass m, all_some (map (as_arg w) rest) with
           | true, Some is => let st1 := implementedBy fuel w st c in
-                             (alloc_cprov st1 c is, Some (OCProv (List.length (st_cprovs st1))))
+                             (alloc_cprov w st1 c is, Some (OCProv (List.length (st_cprovs st1))))
           | _, _ => (st, None)
           end
       | FNewObj, OClass c :: d :: attrs =>
